@@ -53,6 +53,10 @@ func (f *When) Call(s *slip.Scope, args slip.List, depth int) (result slip.Objec
 	if firstValue(slip.EvalArg(s, args, pos, d2)) != nil {
 		for pos++; pos < len(args); pos++ {
 			result = slip.EvalArg(s, args, pos, d2)
+			switch result.(type) {
+			case *slip.ReturnResult, *GoTo:
+				return result
+			}
 		}
 	}
 	return
